@@ -149,7 +149,8 @@ def applyFlags (l : Loc) (f : Flags) (force : Bool) : Loc × Option Err :=
     -- reference_branch = Branch.open(_select_bind_location())
     if f.createReference && !l.bindKnown then (l1, some .noBindLocation)
     -- destroy_repository, part 1: where do the revisions go
-    else if f.destroyRepository && !f.createReference && !l.sharedAbove then (l1, some .noSharedRepository)
+    else if f.destroyRepository && !f.createReference && l.branch != .reference && !l.sharedAbove then
+      (l1, some .noSharedRepository)
     else
       let l2 : Loc :=
         if f.createReference then { l1 with branch := .reference, bindKnown := true }
